@@ -58,7 +58,7 @@ claim("C05", "E3+E5",
       "(T3) a table builder's is_empty() verdict - which decides whether the table is emitted at all - is taken after every field it reads is final (a half-filled "
       "GDEF builder used to be droppable while GSUB/GPOS already referred to its mark glyph sets; seeded, not a defect of the pinned tree); (T4) every field that "
       "receives a name id minted by the feature compiler is adjusted by remap_name_ids (found: the size feature's menu name id; repaired) and every field it rewrites goes through its reserved-id-preserving closure (found: STAT elided fallback id 2 became 4; repaired); "
-      "(T6) axis indices come from the variable axes only: StaticMetadata.all_source_axes is read by front ends alone (seeded); (a) no serialisation or compile error is dropped "
+      "(T6) axis indices come from the variable axes only: StaticMetadata.all_source_axes is read by front ends alone (seeded); (T9) every Post::new_v2 call in the backend is dominated by an examined check that each glyph name fits a Pascal string (found: a 300-byte glyph name gave an unreadable post table with exit 0; repaired); (a) no serialisation or compile error is dropped "
       "between a job's table value and the bytes handed to the font builder, for every function reachable from the entry points (each of the "
       "type-resolved discard sites is audited or reported; the to_bytes().ok() defect that produced a font without a name table was found this way and "
       "repaired); (b) TABLES_TO_MERGE, font::has, font::bytes_for and FontWork::read_access agree arm by arm, list the required tables, and every table "
@@ -81,12 +81,12 @@ claim("C14", "E5",
 
 claim("C20", "E5",
       "static analysis: call-graph dominator (single pipeline) over the resolved whole-program call graph; constant-key data-flow rules over MIR for the source loaders (which lib keys are looked up on which dictionary)",
-      "Static decision of five structural clauses of C20: (Q1) the CLI entry point and the library entry point reach scheduler and context construction through one common "
+      "Static decision of six structural clauses of C20: (L9) inside the read_dir loop of the .glyphspackage loader a branch depends only on the audited conditions (extension is `glyph`; an empty glyphname is an error) - glyphs are identified by the glyphname inside each file, so a file-name filter drops a glyph the single .glyphs file has (seeded); (Q1) the CLI entry point and the library entry point reach scheduler and context construction through one common "
       "function (a call-graph dominator of Workload::new, Workload::exec and both Context::new_root), and nothing else constructs them; (L2) the .glyphspackage "
       "loader does not consult custom parameters the single-file loader does not; (L4) `public.*` UFO lib keys are looked up on the designspace lib only for the "
       "documented key, because that lib holds the default master's public keys only for a lone UFO - any other key would make a lone UFO and a designspace "
       "listing only that UFO build different fonts; (L7) the Glyphs plist scalar accessors agree on accepting quoted and unquoted spellings of a scalar; (L8) the raw Glyphs text "
-      "is not rewritten by regular expressions before the tokenizer. L7 and L8 each report one genuine defect of the pinned tree, listed as KNOWN findings (reproduced; not small to repair). "
+      "is not rewritten by regular expressions before the tokenizer. L7 and L8 each report one genuine defect of the pinned tree, listed as KNOWN findings (reproduced; not small to repair); a second L7 report (order.plist read through expect_string) was repaired. "
       "Container equivalence in general and the rest of formatting insensitivity are parser semantics and NOT decided.",
       "Trusted: rustc MIR and the call graph (CHA for trait objects); dominators are computed by node removal over the reachable graph.",
       "DESIGN.md section 5.3 (Q1)")
@@ -152,7 +152,7 @@ claim("C01", "E2+E1",
 
 claim("C18", "E2+E5",
       "static analysis: the C01 hash-order taint analysis restricted to the name flow (name-id allocation, name table assembly, fvar/STAT references, fea-rs name handling); forward data-flow from the name-id minting calls to output-table fields compared with the fields the remap function writes (sibling agreement); path enumeration over the CFG of the NameId lookup predicates against the allocator's reserved-id constants",
-      "Static decision of SIX clauses of C18: (T8) a non-empty record - inside StaticMetadata::new every registration of a NamedInstance field as a name record is preceded by an emptiness test of that field (found: stylename=\"\" produced an empty record that fvar referred to; repaired); (T7) ids below 256 only where the specification allows - every accepting path of the backend's NameId lookup predicates (fvar, STAT) establishes id >= 256 or id in the reserved set the allocator and the fvar specification agree on (2, 17), and only the default instance may ask for a reserved id (found: subfamilyNameID 1 for a default instance named like the family; repaired); (N5) every name record derived from the source reaches the merge with the feature file's records, which replaces one only on an equal "
+      "Static decision of SIX clauses of C18 (plus T10 inside the T4/T5 clause: the ids cvParameters addresses as first+i come from the allocator T5 verifies; seeded): (T8) a non-empty record - inside StaticMetadata::new every registration of a NamedInstance field as a name record is preceded by an emptiness test of that field (found: stylename=\"\" produced an empty record that fvar referred to; repaired); (T7) ids below 256 only where the specification allows - every accepting path of the backend's NameId lookup predicates (fvar, STAT) establishes id >= 256 or id in the reserved set the allocator and the fvar specification agree on (2, 17), and only the default instance may ask for a reserved id (found: subfamilyNameID 1 for a default instance named like the family; repaired); (N5) every name record derived from the source reaches the merge with the feature file's records, which replaces one only on an equal "
       "platform/encoding/language/name-id key (seeded); (T5) the feature-code name-id allocator is advanced on every path of the function that hands an id out "
       "(found: a group of empty names left it untouched and the next group got the same id; repaired); (H) the name table and the name ids other tables refer to do not depend on anything but the source, i.e. "
       "not on per-process hash iteration order; (T4) every output-table field that receives a name id minted by the feature compiler (featureNames, "
